@@ -3,6 +3,7 @@ package main
 import (
 	"encoding/json"
 	"fmt"
+	"reflect"
 	"strconv"
 
 	"github.com/high-moctane/mocrelay"
@@ -50,6 +51,7 @@ func cacheRun(c *cacheCase) {
 	for id, je := range c.Pool {
 		ptr[id] = je.ToEvent()
 	}
+	var lastFs []*mocrelay.ReqFilter
 	for i := range c.Steps {
 		st := &c.Steps[i]
 		func() {
@@ -71,7 +73,12 @@ func cacheRun(c *cacheCase) {
 			st.TLen = mocrelay.VerifCacheTreeLen(cache)
 			st.ILen = mocrelay.VerifCacheIndexLen(cache)
 			for j := range st.Qs {
-				st.Qs[j].Out = idsOf(cache.Find(common.ToFilters(st.Qs[j].Fs)))
+				// a query that repeats the one before it is asked with the very same filter values (a client
+				// library that keeps its filters): asking must not use up the caller's filters
+				if j == 0 || !reflect.DeepEqual(st.Qs[j].Fs, st.Qs[j-1].Fs) || lastFs == nil {
+					lastFs = common.ToFilters(cacheCopyFilters(st.Qs[j].Fs))
+				}
+				st.Qs[j].Out = idsOf(cache.Find(lastFs))
 			}
 		}()
 		if st.List == nil {
@@ -83,6 +90,25 @@ func cacheRun(c *cacheCase) {
 			}
 		}
 	}
+}
+
+// cacheCopyFilters: the Go filters get integers of their own, so that nothing the store does to them shows
+// up in the recorded case
+func cacheCopyFilters(fs []common.JFilter) []common.JFilter {
+	out := make([]common.JFilter, len(fs))
+	for i, f := range fs {
+		if f.Since != nil {
+			f.Since = common.Ptr(*f.Since)
+		}
+		if f.Until != nil {
+			f.Until = common.Ptr(*f.Until)
+		}
+		if f.Limit != nil {
+			f.Limit = common.Ptr(*f.Limit)
+		}
+		out[i] = f
+	}
+	return out
 }
 
 var cacheAuthors = []string{"pa", "pb", "pc"}
@@ -99,7 +125,7 @@ func cacheGenPool(r *common.Rand, n int, mode string) (map[string]common.JEvent,
 		"c05": {1, 1, 0, 30000, 30000, 5, 5, 5},
 	}
 	kinds := kindsByMode[mode]
-	dvals := []string{"", "a", "b"}
+	dvals := []string{"", "a", "b", "A"}
 	evs := make([]common.JEvent, n)
 	// one pool in eight has events whose created_at lies at the ends of int64 (a comparison written as
 	// a subtraction, or through time.Unix, orders those wrongly)
@@ -274,7 +300,7 @@ func cacheGenFilter(r *common.Rand, ids []string, sel int) common.JFilter {
 			case "p":
 				vals = sub(cacheAuthors, 1+r.Intn(2))
 			case "d":
-				vals = sub([]string{"", "a", "b"}, 1+r.Intn(2))
+				vals = sub([]string{"", "a", "b", "A"}, 1+r.Intn(2))
 			case "e":
 				vals = sub(ids, 1+r.Intn(2))
 			case "a":
@@ -367,6 +393,9 @@ func cacheGen(r *common.Rand, mode string) cacheCase {
 			}
 			asked = append(asked, fs)
 			st.Qs = append(st.Qs, cacheQuery{Fs: fs})
+			if r.Chance(15) {
+				st.Qs = append(st.Qs, cacheQuery{Fs: fs}) // the same query once more, with the same filter values
+			}
 		}
 		if st.Qs == nil {
 			st.Qs = []cacheQuery{}
